@@ -152,7 +152,8 @@ pub fn decode_reuse(data: &[u8]) -> SeqCase {
         i += 1;
     }
     ops.push(Op::Generate);
-    SeqCase { base, ops }
+    let unseeded = data.get(1).map_or(false, |b| b & 0x80 != 0);
+    SeqCase { base, ops, unseeded }
 }
 
 /// target `reuse`: a call sequence on one generator (C08); built with LeakSanitizer on, which
